@@ -28,6 +28,8 @@ ScenarioOps(k) ==
       [] k = 4 -> <<[NoArg EXCEPT !.op = "AddCluster", !.n = 4], [NoArg EXCEPT !.op = "AddNodes", !.n = 4], [NoArg EXCEPT !.op = "MigrateSlots"]>>
       [] k = 5 -> <<[NoArg EXCEPT !.op = "AddCluster", !.n = 8]>>
       [] k = 6 -> <<[NoArg EXCEPT !.op = "AddCluster", !.n = 8], [NoArg EXCEPT !.op = "ScaleDown", !.n = 4]>>
+      [] k = 7 -> <<[NoArg EXCEPT !.op = "AddCluster", !.n = 12]>>
+      [] k = 8 -> <<[NoArg EXCEPT !.op = "AddCluster", !.n = 12], [NoArg EXCEPT !.op = "ScaleDown", !.n = 4]>>
 
 SInit == /\ \E k \in Scenarios : st = Scenario(k) /\ hist = ScenarioOps(k)
          /\ last = NoEvent
